@@ -157,10 +157,12 @@ let parse_log (s : string) : (int * string) list =
   List.filter_map (fun e ->
       match String.index_opt e ':' with
       | Some i ->
-          let idx = int_of_string (String.sub e 0 i) in
-          let rest = String.sub e (i + 1) (String.length e - i - 1) in
-          if String.length rest > 0 && (rest.[String.length rest - 1] = 'p' && (String.length rest < 2 || rest.[String.length rest - 2] = ':')) then None
-          else Some (idx, rest)
+          (match int_of_string_opt (String.sub e 0 i) with
+           | None -> None   (* a log the implementation itself can no longer index (wrapped first index) *)
+           | Some idx ->
+               let rest = String.sub e (i + 1) (String.length e - i - 1) in
+               if String.length rest > 0 && (rest.[String.length rest - 1] = 'p' && (String.length rest < 2 || rest.[String.length rest - 2] = ':')) then None
+               else Some (idx, rest))
       | None -> None) (List.rev !parts)
 
 let int_field s k = try int_of_string (field s k) with _ -> 0
@@ -693,9 +695,17 @@ let run_trace_file (path : string) =
   let flush_obs () =
     (match !ts, !mon, !cur with
      | Some t, Some m, Some o ->
-         monitor_obs m o;
-         if !tail_seen then (monitor_tail m o; tail_seen := false);
-         if not t.diverged then compare_obs_any_schedule t m o
+         (try
+            monitor_obs m o;
+            if !tail_seen then (monitor_tail m o; tail_seen := false);
+            if not t.diverged then compare_obs_any_schedule t m o
+          with e ->
+            (* an observation the replayer cannot even parse: the implementation shows something no model state has *)
+            if not t.diverged then begin
+              t.diverged <- true; incr mismatches;
+              say (Printf.sprintf "MISMATCH trace=%s step=%d label=%s what=observation cannot be interpreted (%s)"
+                     m.tname m.step m.label (Printexc.to_string e))
+            end)
      | _ -> ());
     cur := None in
   let finish () =
